@@ -18,6 +18,7 @@ func init() {
 			"R11.5 also: NamedReader always returns a wrapper allocated by this call. " +
 			"R11.3 also: whenever there is a payload the Content-Type header is set unconditionally, and a payload that is no reader always goes through the producer. " +
 			"R11.4 also: a file part's Content-Type is the declared or the sniffed type only, and no form value or file recorded on the request is removed again; R11.2 also: request.GetBody returns what the installed getBody function returns on every path. " +
+			"R11.2 also: the client never installs http.Request.GetBody; R11.4 also: the file name sent is the base name of the file's own Name(). " +
 			"NOT decided: byte-for-byte equality of what net/http then sends.",
 		Run: runC11,
 	})
